@@ -219,7 +219,7 @@ func flattenAdd(e ast.Expr) []ast.Expr {
 	return []ast.Expr{e}
 }
 
-func strLit(e ast.Expr) (string, bool) {
+func selStrLit(e ast.Expr) (string, bool) {
 	l, ok := e.(*ast.BasicLit)
 	if !ok || l.Kind != token.STRING {
 		return "", false
@@ -252,7 +252,7 @@ func (g *selGen) rangeHeader(fn string, subst map[string]string, prefix string) 
 			return true
 		}
 		if selPrint(c.Fun) == "req.Header.Add" || selPrint(c.Fun) == "req.Header.Set" {
-			if k, isStr := strLit(c.Args[0]); isStr && k == "Range" {
+			if k, isStr := selStrLit(c.Args[0]); isStr && k == "Range" {
 				call = c
 				n++
 			}
@@ -266,8 +266,8 @@ func (g *selGen) rangeHeader(fn string, subst map[string]string, prefix string) 
 	if len(parts) != 4 {
 		g.fail(fn, call, "Range value must be lit + FormatUint + lit + FormatUint")
 	}
-	pre, ok1 := strLit(parts[0])
-	sep, ok2 := strLit(parts[2])
+	pre, ok1 := selStrLit(parts[0])
+	sep, ok2 := selStrLit(parts[2])
 	if !ok1 || !ok2 {
 		g.fail(fn, call, "Range literals")
 	}
@@ -331,7 +331,7 @@ func genSelect(r *repo) string {
 				if len(x.Body.List) >= 1 {
 					if ret, ok := x.Body.List[len(x.Body.List)-1].(*ast.ReturnStmt); ok && len(ret.Results) == 1 {
 						if c, isCall := ret.Results[0].(*ast.CallExpr); isCall && selPrint(c.Fun) == "fmt.Errorf" && len(c.Args) == 1 {
-							if s, isStr := strLit(c.Args[0]); isStr && s == "playback is too late" {
+							if s, isStr := selStrLit(c.Args[0]); isStr && s == "playback is too late" {
 								lateIf = x
 								nLate++
 							}
@@ -459,8 +459,8 @@ func genSelect(r *repo) string {
 			if !ok || (selPrint(c.Fun) != "q.Add" && selPrint(c.Fun) != "q.Set") || len(c.Args) != 2 {
 				return true
 			}
-			k, ok1 := strLit(c.Args[0])
-			v, ok2 := strLit(c.Args[1])
+			k, ok1 := selStrLit(c.Args[0])
+			v, ok2 := selStrLit(c.Args[1])
 			if !ok1 || !ok2 {
 				g.fail(fn, c, "query literal")
 			}
